@@ -646,3 +646,19 @@ Definition faults_full (c : cfg) (residue : residue_fn) : Prop :=
     fst (m_step c residue st o) = st.
 Definition property_full (c : cfg) (residue : residue_fn) : Prop :=
   modes_full c residue /\ catalog_full c residue /\ faults_full c residue.
+
+(** what is proved of [property_full], in one statement: the decidable domain [hist_ok] for the mode/round-trip part,
+    nothing for the catalog part, the engine premise [atomic_at] for the fault part *)
+Theorem property_partial c residue :
+  cfg_ok c = true ->
+  (forall ops, hist_ok c residue m_init ops = true ->
+     s_run s_init ops = (abs (fst (m_run c residue m_init ops)), snd (m_run c residue m_init ops)))
+  /\ catalog_full c residue
+  /\ (forall st o d, is_write o = true -> op_df o = Some d -> df_bad d = true -> atomic_at residue st o = true ->
+        fst (m_step c residue st o) = st).
+Proof.
+  intro Hc. split; [|split].
+  - intros ops Hok. exact (modes_refine_spec c residue Hc ops m_init Hok).
+  - intros ops k. exact (catalog_reflects c residue ops m_init k).
+  - intros st o d Hw Hd Hb Hat. exact (proj1 (failed_write_leaves_state c residue st o d Hw Hd Hb Hat)).
+Qed.
